@@ -145,7 +145,7 @@ a translation reply and in-flight records waiting for a memory response, i.e. th
 theorem at_no_loss (c : Cfg) (ops : List Op) :
     let s := run c ops
     (s.ctlIn = [] → mu (tick c s).1 ≤ mu s ∧ ((tick c s).2 = true → mu (tick c s).1 < mu s)) ∧
-    (s.flushing = false → s.ctlIn = [] → 0 < c.width →
+    (s.flushing = false → s.ctlIn = [] →
       s.topOut.length < c.width → s.botOut.length < c.width → s.trOut.length < c.width →
       (s.botIn ≠ [] ∨ s.trIn ≠ [] ∨ s.topIn ≠ [] ∨ ∃ t ∈ s.txs, t.done = true) →
       (tick c s).2 = true ∧ mu (tick c s).1 < mu s) ∧
@@ -156,7 +156,8 @@ theorem at_no_loss (c : Cfg) (ops : List Op) :
   have hd : DInv s := run_dinv c ops
   have hne : ∀ t ∈ s.txs, t.reqs ≠ [] := fun t ht => ((run_minv c ops).tx t ht).1
   refine ⟨tick_dec c s, ?_, ?_, ?_, ?_⟩
-  · intro hfl hctl hw h1 h2 h3 hact
+  · intro hfl hctl h1 h2 h3 hact
+    have hw : 0 < c.width := by omega
     have hflag : (tick c s).2 = true := by
       obtain ⟨n, hn⟩ : ∃ n, c.width = n + 1 := ⟨c.width - 1, by omega⟩
       have hpipe : (runPipeline c s).2 = true := by
@@ -356,11 +357,17 @@ theorem tick_idle_unchanged_refuted : ¬ tick_idle_unchanged_full := by
 /-- What does hold: when the awake component's tick reports no progress, the *next* tick would be a
 no-op (`tick_idle_unchanged_partial`), i.e. going to sleep loses nothing. -/
 theorem tick_idle_unchanged_partial (c : Cfg) (e : Env) (w : CW) (hr : Reach c e w)
-    (ha : w.awake = true) (hf : (tick c w.s).2 = false) :
+    (hf : (tick c w.s).2 = false) :
     tick c (tick c w.s).1 = ((tick c w.s).1, false) := by
-  have hr' := Reach.step w .tick hr
-  have := (no_lost_wakeup c e _ hr' (by simp [hstep, ha, hf])).2
-  simpa [hstep, ha] using this
+  cases ha : w.awake with
+  | true =>
+    have hr' := Reach.step w .tick hr
+    have := (no_lost_wakeup c e _ hr' (by simp [hstep, ha, hf])).2
+    simpa [hstep, ha] using this
+  | false =>
+    -- asleep: the tick is already a no-op (`no_lost_wakeup`)
+    have h := (no_lost_wakeup c e w hr ha).2
+    rw [h]; exact h
 
 /-- **The reply-while-bottom-full case decided.** If the component is asleep while a completed
 transaction still holds requests (the state that tick leaves behind), then the bottom port's
@@ -524,8 +531,7 @@ example := no_lost_wakeup ⟨1, 12⟩ demoEnv _ (demo_reach demoH1) (by decide)
 example : ∃ t ∈ (hrun ⟨1, 12⟩ demoEnv {} demoH1).s.txs, t.done = true := by decide
 
 /-- the tick before the component fell asleep: awake, reports no progress, yet marks the transaction done -/
-example := tick_idle_unchanged_partial ⟨1, 12⟩ demoEnv _ (demo_reach (demoH1.take 9))
-  (by decide) (by decide)
+example := tick_idle_unchanged_partial ⟨1, 12⟩ demoEnv _ (demo_reach (demoH1.take 9)) (by decide)
 
 /-- the flushing tick of `demoH2` (op 19): awake, epoch changes -/
 example := at_flush_world_step ⟨1, 12⟩ demoEnv (hrun ⟨1, 12⟩ demoEnv {} (demoH2.take 18)) (by decide) (by decide)
